@@ -406,6 +406,21 @@ func c20(c *fw.Ctx) {
 						return
 					}
 				}
+				// only the first len(counters) entries of a longer pattern take part (the Code 128
+				// stop pattern has seven entries and is matched against six runs)
+				if rng.Intn(3) == 0 {
+					long := append(append([]int{}, p...), 1+rng.Intn(4))
+					if rng.Bool() {
+						long = append(long, 1+rng.Intn(4))
+					}
+					a, b := oned.PatternMatchVariance(cv, p, lim), oned.PatternMatchVariance(cv, long, lim)
+					r.Evals(1)
+					if !((math.IsInf(a, 1) && math.IsInf(b, 1)) || a == b) {
+						r.Violation("model-mismatch", "PatternMatchVariance:pattern-longer-than-counters", fmt.Sprintf("PatternMatchVariance(%v, %v, %v) = %v, but with the same pattern followed by further entries %v it is %v", cv, p, lim, a, long, b), map[string]interface{}{"counters": cv, "pattern": long, "limit": lim})
+						return
+					}
+					r.Tally("pattern_longer_than_counters")
+				}
 				// scale invariance
 				total, plen := 0, 0
 				for i := range cv {
